@@ -6,7 +6,7 @@ use vmodel::{
     engine::{fingerprint, Failure, ShardCtx, Verdict},
     refs::{lcp, ref_complete, Completion},
     screen::Screen,
-    session::{CmdSet, Config, EnumSet, GroupSet, Sess, TlSet, PROMPTS, TL_NAMES},
+    session::{CmdSet, EnumSet, GroupSet, TlSet, PROMPTS, TL_NAMES},
 };
 
 use super::{
@@ -270,7 +270,7 @@ fn fixed_case_strategy() -> impl Strategy<Value = TabCase> {
 
 fn run_shard(ctx: &ShardCtx) {
     run_macro_half(ctx);
-    for (sub, total, fixed) in [("tab-derived", ctx.tier.pick(100_000u64, 1_000_000u64), true), ("tab-library", ctx.tier.pick(400_000, 8_000_000), false)] {
+    for (sub, total, fixed) in [("tab-derived", ctx.tier.pick(1_000_000u64, 6_000_000u64), true), ("tab-library", ctx.tier.pick(3_000_000, 25_000_000), false)] {
         let f = |c: &TabCase| match run_any(c) {
             Ok((nt, open)) => {
                 if open {
@@ -320,7 +320,7 @@ fn obs_from_reply(r: &Value) -> vmodel::genrun::TabObs {
 fn run_macro_half(ctx: &ShardCtx) {
     let set = declcommon::worker_set("C11", ctx);
     let servers = Servers::new();
-    let per_decl = ctx.tier.pick(300u64, 1500u64);
+    let per_decl = ctx.tier.pick(1500u64, 3000u64);
     let mut gi = 0u64;
     for (bin, decls) in &set.crates {
         for d in decls {
